@@ -57,6 +57,11 @@ INSIDE = {15: (0.8, 0.1, 0.1), 1: (0.5, 0.45, 0.5), 2: (0.1, 0.05, 0.6), 5: (0.5
 SURFACE = {5: (1.0, 0.0, 0.0), 6: (0.8, 0.0, 0.0), 7: (0.5, 0.1, 0.1), 8: (0.6, 0.0, 0.1), 9: (0.55, 0.0, 0.0)}
 
 
+# further observer rows for the batch-size variant: generic points outside the bodies (>= 10 rows switch the vectorised special functions)
+ROWS = np.array([[1.9, 0.3, 0.2], [-1.7, 0.4, 0.6], [0.2, 2.1, -0.3], [0.3, -1.8, 0.5], [0.4, 0.2, 1.9], [1.1, 1.3, 1.2], [-1.2, 1.1, -1.4], [2.5, -2.0, 0.1],
+                 [0.1, 0.2, -2.2], [-2.4, -0.3, 0.3], [1.5, -1.6, -1.1]])
+
+
 def sensors_for(magpy):
     # pixels: strictly inside most bodies, inside the open cylinder segment, near faces, outside, far
     pix = np.array([[0.1, 0.05, 0.08], [0.5, 0.2, 0.02], [0.3, -0.35, 0.2], [1.6, 0.4, 0.3], [-2.0, 3.0, 1.5], [8.0, -6.0, 7.0],
@@ -92,16 +97,22 @@ def batch_events(args):
                 if arr[-1] in SURFACE or arr[0] in SURFACE:
                     key = arr[-1] if arr[-1] in SURFACE else arr[0]
                     variants.append(("surface", {i: pal[i].copy(position=(0, 0, 0), orientation=None) for i in set(arr)}, np.array(SURFACE[key])))
+                    # the same surface point as ONE row of a call with >= 10 rows, against row-by-row calls (value must not depend on batch size)
+                    variants.append(("surface-rows", variants[-1][1], np.concatenate([np.array([SURFACE[key]]), ROWS])))
                 for vname, stat, pt in variants:
                   srcs = [stat[i] for i in arr]
                   for field in "BHJM":
                       fn = getattr(magpy, "get" + field)
-                      T = np.asarray(fn(srcs, pt, squeeze=False), dtype=float)                              # (L, 1, 1, 1, 3)
-                      sg = [[np.asarray(fn(stat[i], pt, squeeze=False), dtype=float)[0, :, 0]] for i in arr]
+                      T = np.asarray(fn(srcs, pt, squeeze=False), dtype=float)                              # (L, 1, 1, 1, 3) / (L, 1, 1, P, 3)
+                      if pt.ndim == 1:
+                          sg = [[np.asarray(fn(stat[i], pt, squeeze=False), dtype=float)[0, :, 0]] for i in arr]
+                      else:
+                          sg = [[np.stack([np.asarray(fn(stat[i], q, squeeze=False), dtype=float)[0, :, 0, 0] for q in pt], axis=1)] for i in arr]
                       s = quant.gross(T, *[x for row in sg for x in row])
+                      finT, finS = bool(np.isfinite(T).all()), all(bool(np.isfinite(x).all()) for row in sg for x in row)
                       ev = {"tid": tid0 + n, "kind": "batch", "what": "+".join(type(pal[i]).__name__ for i in arr), "arr": arr, "field": field,
                             "T": quant.q12(T, s), "single": [[quant.q12(x, s) for x in row] for row in sg],
-                            "same": not (classes & CEL_BASED), "fin": bool(np.isfinite(T).all()), "smallest": True, "obs": vname}
+                            "same": not (classes & CEL_BASED), "fin": finT and finS, "finT": finT, "finS": finS, "raised": False, "smallest": True, "obs": vname}
                       f.write(json.dumps(ev, separators=(",", ":")) + "\n")
                       n += 1
             elif st["kind"] == "batch":
@@ -109,15 +120,22 @@ def batch_events(args):
                 field = "BHJM"[(j + len(arr)) % 4]
                 fn = getattr(magpy, "get" + field)
                 srcs = [pal[i] for i in arr]
-                T = np.asarray(fn(srcs, sens, squeeze=False), dtype=float)                           # (L, M, K, P, 3)
-                sg = [[single(i, k, field) for k in range(len(sens))] for i in arr]
-                s = quant.gross(T, *[x for row in sg for x in row])
+                sg = [[single(i, k, field) for k in range(len(sens))] for i in arr]          # the single calls come first: they must succeed
                 classes = {type(pal[i]).__name__ for i in arr}
-                ev = {"tid": tid0 + n, "kind": "batch", "what": "+".join(type(pal[i]).__name__ for i in arr), "arr": arr, "field": field,
+                try:
+                    T = np.asarray(fn(srcs, sens, squeeze=False), dtype=float)                           # (L, M, K, P, 3)
+                    raised = ""
+                except Exception as e:      # noqa: BLE001 - a valid call that fails only in this composition is an observation
+                    T, raised = np.zeros((0,)), f"{type(e).__name__}: {e}"[:120]
+                s = quant.gross(T, *[x for row in sg for x in row])
+                finT, finS = bool(np.isfinite(T).all()), all(bool(np.isfinite(x).all()) for row in sg for x in row)
+                ev = {"tid": tid0 + n, "kind": "batch", "what": "+".join(type(pal[i]).__name__ for i in arr) + (" " + raised if raised else ""), "arr": arr, "field": field,
                       "T": quant.q12(T, s), "single": [[quant.q12(x, s) for x in row] for row in sg],
-                      "same": not (classes & CEL_BASED), "fin": bool(np.isfinite(T).all())}
+                      "same": not (classes & CEL_BASED), "fin": finT and finS, "finT": finT, "finS": finS, "raised": bool(raised)}
                 f.write(json.dumps(ev, separators=(",", ":")) + "\n")
                 n += 1
+                if raised:
+                    continue
                 # superposition (C05): the summed-up call and the collection equal the sum of the SINGLE-source calls
                 if len(arr) > 1 and field in "BH":
                     Mx = T.shape[1]
